@@ -29,7 +29,11 @@ Num(n) == [k |-> "num", n |-> n]
 Blank == [k |-> "blank"]
 Err == [k |-> "err"]
 Other == [k |-> "other"]
-AsInt(v) == IF v.k = "blank" THEN 0 ELSE v.n
+Bool(b) == [k |-> "bool", b |-> b]
+AsInt(v) == IF v.k = "blank" THEN 0 ELSE IF v.k = "bool" THEN (IF v.b THEN 1 ELSE 0) ELSE v.n
+\* the value a client writes: an integer, or a truth value (written 1001 / 1000 in the constants of a model, since a TLC set cannot
+\* mix integers and booleans).  TRUE and 1 are DIFFERENT cell contents: the cell reports what was written, type included.
+OvVal(n) == IF n = 1001 THEN Bool(TRUE) ELSE IF n = 1000 THEN Bool(FALSE) ELSE Num(n)
 
 Arith(o, x, y) ==
   IF x.k = "err" \/ y.k = "err" THEN Err
@@ -42,7 +46,7 @@ Arith(o, x, y) ==
 RECURSIVE Ev(_, _)
 \* ov: function from a subset of AllCoords to integers (the overrides in force)
 Ev(c, ov) ==
-  IF c \in DOMAIN ov THEN Num(ov[c])                         \* an overridden cell IS its constant
+  IF c \in DOMAIN ov THEN OvVal(ov[c])                       \* an overridden cell IS its constant
   ELSE IF c \notin DOMAIN WB THEN Blank
   ELSE LET f == WB[c] IN
        CASE f.op = "const" -> Num(f.v)
